@@ -207,6 +207,27 @@ class LineCrasher:
         return False
 
 
+class _Driven:
+    """The library's context manager driven the other ways Python code drives one: through contextlib.ExitStack, or by
+    calling __enter__ / __exit__ by hand (what frameworks and test fixtures do)."""
+
+    def __init__(self, cm, how: str) -> None:
+        self.cm, self.how, self.stack = cm, how, None
+
+    def __enter__(self):
+        if self.how == "exitstack":
+            import contextlib
+            self.stack = contextlib.ExitStack()
+            self.stack.__enter__()
+            return self.stack.enter_context(self.cm)
+        return self.cm.__enter__()
+
+    def __exit__(self, *exc):
+        if self.how == "exitstack":
+            return self.stack.__exit__(*exc)
+        return self.cm.__exit__(*exc)
+
+
 class Interp:
     def __init__(self, trace: dict, out: Outcome, keep_log: bool) -> None:
         self.trace = trace
@@ -390,6 +411,8 @@ class Interp:
                     continue
                 if sig:
                     break
+        elif kind == "overlap":
+            self.do_overlap(k, s)
         elif kind in ("ret", "brk", "cont"):
             self.emit(f"{k} {kind.upper()}")
             if self.ctx_depth:
@@ -399,6 +422,53 @@ class Interp:
             raise AssertionError(kind)
         self.check(f"after stmt {k} {kind}")
         return sig
+
+    def do_overlap(self, k: int, s: dict) -> None:
+        """Two contexts over *disjoint* settings that overlap instead of nesting (entered A, B; left A, B - what a suspended
+        generator or hand-driven __enter__/__exit__ produce): each setting has its previous value again when *its* context is
+        left. Observations only in between; no exception is involved."""
+        st = self.out.stats
+        st.hit("probes.overlapping_contexts_over_disjoint_settings")
+        a, b = s["a"], s["b"]
+        self.emit(f"{k} OVERLAP a={sorted(a)} b={sorted(b)}")
+        active: list = []  # (context manager, frame) still to be left
+        try:
+            cm_a = self.S.context(**{key: realize(key, code) for key, code in a.items()})
+            cm_b = self.S.context(**{key: realize(key, code) for key, code in b.items()})
+            frame_a = {key: self.model[key] for key in a}
+            cm_a.__enter__()
+            active.append((cm_a, frame_a))
+            self.model.update(a)
+            self.ctx_depth += 1
+            self.check(f"overlap {k}: entered A")
+            frame_b = {key: self.model[key] for key in b}
+            cm_b.__enter__()
+            active.append((cm_b, frame_b))
+            self.model.update(b)
+            self.check(f"overlap {k}: entered B")
+            self.block(s["body1"])
+            active.remove((cm_a, frame_a))
+            cm_a.__exit__(None, None, None)
+            self.model.update(frame_a)
+            self.check(f"overlap {k}: left A while B is still active")
+            self.block(s["body2"])
+            active.remove((cm_b, frame_b))
+            cm_b.__exit__(None, None, None)
+            self.model.update(frame_b)
+            self.ctx_depth -= 1
+        except _Abort:
+            raise
+        except SIM_EXC as e:
+            # an exception travels through: whoever drives contexts by hand leaves the ones still active, innermost first
+            self.ctx_depth = max(0, self.ctx_depth - 1)
+            for cm, frame in reversed(active):
+                cm.__exit__(type(e), e, e.__traceback__)
+                self.model.update(frame)
+            self.check(f"overlap {k}: left by {type(e).__name__}")
+            raise
+        except Exception as e:  # noqa: BLE001 - the context machinery refused (e.g. a validating setter): judged as usual
+            self.ctx_depth = max(0, self.ctx_depth - 1)
+            self._machinery_raised(k, e)
 
     def do_ctx(self, k: int, s: dict) -> str | None:
         kw = s["kw"]
@@ -429,6 +499,9 @@ class Interp:
                     if frame_sig:
                         return frame_sig
                     frame = {key: self.model[key] for key in kw}
+                if s.get("how"):
+                    st.hit("probes.context_entered_through_" + s["how"])
+                    cm = _Driven(cm, s["how"])
                 with cm:
                     entered = True
                     for key, code in kw.items():
@@ -770,7 +843,7 @@ class C20(Sim):
             "raise-free base program is a separate case. Non-trivial = at least one context entered. Distinct = "
             "distinct (statement-kind sequence with per-context key subsets, injected position, kind, level).")
     assumptions = [
-        "single-threaded use; contexts are left in nested order (the property says 'nesting')",
+        "single-threaded use; contexts are left in nested order (the property says 'nesting'); in addition two contexts over *disjoint* settings may overlap (entered A, B; left A, B), where 'the previous value when its context is left' is still unambiguous",
         "asynchronous exceptions inside Settings.context's own enter/exit code are out of scope",
     ]
     real_vs_stub = {
@@ -787,7 +860,7 @@ class C20(Sim):
         "assign_named_key_rolled_back", "assign_unnamed_key_persists", "helper_created_under_other_settings_used_now",
         "context_inside_exception_handler", "context_inside_finally_while_exception_propagates", "own_settings_instance",
         "factory_manager_not_yet_created", "context_created_before_it_is_entered", "context_used_as_decorator", "decorated_function_calls_itself",
-        "warnings_escalated_to_errors",
+        "warnings_escalated_to_errors", "context_entered_through_exitstack", "context_entered_through_manual", "overlapping_contexts_over_disjoint_settings",
     ]
 
     # ---- generation --------------------------------------------------------
@@ -799,6 +872,13 @@ class C20(Sim):
                 break
             budget[0] -= 1
             r = rng.random()
+            if r < 0.012 and depth < self.max_depth and not raises:
+                ka = rng.sample(KEYS, rng.randint(1, 3))
+                kb = rng.sample([x for x in KEYS if x not in ka], rng.randint(1, 3))
+                out.append({"k": "overlap", "a": {key: rng.choice(VALUES[key]) for key in ka}, "b": {key: rng.choice(VALUES[key]) for key in kb},
+                            "body1": [{"k": "obs", "what": rng.choice(OBS)} for _ in range(rng.randint(0, 2))],
+                            "body2": [{"k": "obs", "what": rng.choice(OBS)} for _ in range(rng.randint(0, 2))]})
+                continue
             if r < 0.34 and depth < self.max_depth:
                 nk = rng.choice([1, 1, 2, 2, 3, 7]) if rng.random() < 0.9 else rng.randint(1, 7)
                 keys = rng.sample(KEYS, min(nk, 7))
@@ -809,7 +889,10 @@ class C20(Sim):
                 if rr < 0.10:
                     node["pre"] = [{"k": "assign", "key": rng.choice(keys), "v": rng.choice(VALUES[rng.choice(keys)])}
                                    if False else self._pre_assign(rng, keys) for _ in range(rng.randint(1, 2))]
-                elif rr < 0.15:
+                elif rr < 0.27:
+                    # the same context entered through contextlib.ExitStack, or by calling __enter__ / __exit__ by hand
+                    node["how"] = "exitstack" if rr < 0.21 else "manual"
+                elif rr < 0.32:
                     node = {"k": "decorated", "kw": kw, "calls": 2, "recursive": rng.random() < 0.4,
                             "body": self.gen_block(rng, depth + 1, budget, True, False, raises, named | set(keys))}
                 out.append(node)
